@@ -353,6 +353,63 @@ def parseRfc (s0 : List Char) (o : Opts) (dtstartKw : Bool := false) : Py.R Pars
   if (strip s).isEmpty then .error .ValueError
   else parseLines o.po o.cache s (linesOf s (o.unfold || o.compatible)) (o.forceset || o.compatible) o.compatible dtstartKw
 
+/-! ### TZID resolution (`TZID_NAMES` in `_parse_rfc`, the `TZID=` arm of `_parse_date_value`)
+
+`parseRfc` keeps the parameters of DTSTART / EXDATE lines; which zone NAME is handed to the `tzids` lookup for such a line is
+a function of the ORIGINAL-case text (the name table), the `unfold` flag and the line's (upper-cased) parameters. -/
+
+/-- `re.sub(r'\r?\n ', '', s)`: what `_parse_rfc` does to the text before collecting TZID names when `unfold` is set -/
+def stripFolds : List Char → List Char
+  | '\r' :: '\n' :: ' ' :: r => stripFolds r
+  | '\n' :: ' ' :: r => stripFolds r
+  | c :: r => c :: stripFolds r
+  | [] => []
+
+/-- `re.findall('TZID=(?P<name>[^:;]+)[:;]', text, re.IGNORECASE)` (ASCII case folding): left to right, non-overlapping -/
+def findTzidsAux : Nat → List Char → List (List Char)
+  | 0, _ => []
+  | _, [] => []
+  | fuel + 1, c :: r =>
+    if upper ((c :: r).take 5) == lit "TZID=" then
+      let rest := (c :: r).drop 5
+      let name := rest.takeWhile (fun d => d != ':' && d != ';')
+      if !name.isEmpty && name.length < rest.length then name :: findTzidsAux fuel (rest.drop (name.length + 1))
+      else findTzidsAux fuel r
+    else findTzidsAux fuel r
+
+def findTzids (s : List Char) : List (List Char) := findTzidsAux (s.length + 1) s
+
+/-- `TZID_NAMES`: upper-cased name → name as written (a later occurrence overwrites an earlier one) -/
+def tzidTable (s0 : List Char) (unfold : Bool) : List (List Char × List Char) :=
+  (findTzids (if unfold then stripFolds s0 else s0)).map (fun n => (upper n, n))
+
+def tzidLookup (t : List (List Char × List Char)) (k : List Char) : Option (List Char) :=
+  (t.reverse.find? (·.1 == k)).map (·.2)
+
+/-- `parm.split('TZID=')[-1]` -/
+def afterLastTzidAux : Nat → List Char → List Char → List Char
+  | 0, _, best => best
+  | _, [], best => best
+  | fuel + 1, c :: r, best =>
+    if startsWith (c :: r) (lit "TZID=") then afterLastTzidAux fuel ((c :: r).drop 5) ((c :: r).drop 5)
+    else afterLastTzidAux fuel r best
+
+def afterLastTzid (p : List Char) : List Char := afterLastTzidAux (p.length + 1) p p
+
+/-- the loop over `parms` in `_parse_date_value`: the name handed to the `tzids` lookup (`none`: no TZID parameter, or
+    `rule_tzids[...]` raised KeyError for every one of them and the parameter was skipped — silently no zone) -/
+def resolveTzid (t : List (List Char × List Char)) (parms : List (List Char)) : Option (List Char) :=
+  parms.foldl (fun cur p =>
+    if startsWith p (lit "TZID=") then
+      match tzidLookup t (afterLastTzid p) with
+      | some n => some n
+      | none => cur
+    else cur) none
+
+/-- the zone name looked up for a DTSTART / EXDATE line with parameters `parms` in the text `s0` -/
+def tzidOf (s0 : List Char) (o : Opts) (parms : List (List Char)) : Option (List Char) :=
+  resolveTzid (tzidTable s0 (o.unfold || o.compatible)) parms
+
 /-! ### `rrule.__str__` -/
 
 structure StrIn where
